@@ -3,6 +3,7 @@ import json
 
 from prov.identifier import Identifier, QualifiedName, Namespace
 from prov.model import ProvDocument, ProvBundle, Literal
+from prov.constants import PROV
 
 from ..world import World
 from ..gen import Gen
@@ -39,6 +40,15 @@ def make_case(ctx, g, prior=None):
         w = World()
         b = DocBuilder(g, w, malformed=0.0, repeat_id=0.2, xml=True, subtypes=0.3, refused=0.15, reinstant=0.15, builtin_names=0.05)
         d, scopes = b.random_document(n_records=g.rng.randint(1, 8))
+        if g.chance(0.08):
+            # a membership that names several members in one statement (the collection form of add_attributes): PROV-XML has a
+            # child element per member, so every one of them is written and read back
+            EXN = Namespace("ex", "http://example.org/")
+            c = g.choice(scopes)
+            w.new_record(c, "Membership", QualifiedName(EXN, "members") if g.chance(0.3) else None,
+                         [(PROV["collection"], QualifiedName(EXN, "coll"))]
+                         + [(PROV["entity"], QualifiedName(EXN, "m%d" % i)) for i in g.rng.sample(range(6), g.rng.randint(2, 4))])
+            ctx.count("membership-several-members")
     else:
         # second chapter of the same history: the document was changed in place after it had been exported once
         w, b, d, scopes = prior
